@@ -33,6 +33,7 @@
 #include "safe_str_lib.h"
 #else
 #include "safeclib_private.h"
+#include "mem/mem_primitives_lib.h"
 #endif
 
 /**
@@ -90,6 +91,8 @@ EXPORT errno_t _strzero_s_chk(char *dest, rsize_t dmax,
     if (dmax && !*dest)
         memset(dest, 0, dmax);
 #endif
+    /* the buffer is typically dead afterwards: keep the stores */
+    MEMORY_BARRIER;
 
     return (EOK);
 }
